@@ -483,7 +483,9 @@ func joinOperator(v interface{}, operator string) (string, error) {
 		}
 		ops := make([]string, len(arr))
 		for i := 0; i < len(arr); i++ {
-			ope, err := parseOperand(arr[i], false, operator == " != ")
+			// a single-operand "not" is the logical negation of its operand; with two or more operands it is the
+			// != operator, and negating only the operands that happen to be operator objects would change its value
+			ope, err := parseOperand(arr[i], false, operator == " != " && len(arr) == 1)
 			if err != nil {
 
 				return "", err
